@@ -58,6 +58,10 @@ CORPUS = [
      "V.add((f * inner(grad(u), grad(v)) + u.dt() * v - u * v.dt()) * dx)"),
     ('onedim-second-derivs',
      "V = VForm(1)\nu, v = V.basisfuns()\nc = V.parameter('c')\nV.add((Dx(Dx(u, 0), 0) * Dx(v, 0) + c * u * v / (V.Geo[0] + 3.0)) * dx)"),
+    ('symmetric-let-3d',
+     "V = VForm(3)\nu, v = V.basisfuns()\nf = V.input('f')\n"
+     "B = V.let('B', V.W * dot(V.JacInv, V.JacInv.T), symmetric=True)\n"
+     "V.add(B.dot(grad(u, parametric=True)).dot(grad(v, parametric=True)) + f * B[2, 0] * u * v)"),
     # documented builtin functions that reach libm (and, vectorised under -ffast-math, libmvec)
     ('builtins-exp-sin-cos-log-tan',
      "V = VForm(2)\nu, v = V.basisfuns()\nf = V.input('f')\nc = V.parameter('c')\nx = V.Geo\n"
@@ -523,6 +527,7 @@ def run(ctx):
     # freshly generated forms: accepted by the generator pass above, not huge
     fresh_pool = [s for s in gspecs if s['id'] in acc_ids and s['stream'] == 'grammar']
     n_fresh = 60 if thorough else 2
+    n_fresh = int(os.environ.get('VERIF_C01_FRESH', n_fresh))      # development aid only
     fresh = fresh_pool[:n_fresh]
     for s in fresh:
         s['seeds'] = [rng.randrange(10 ** 6) for _ in range(n_inst)]
